@@ -1,6 +1,6 @@
 # Bounded stand-in (NOT a proof) for the S3 lookup units (_get_id_prefixes, S3BasicFacade.iter_keys, S3TapeCassette.iter_recording_ids), used only
 # when a deductive unit is undecided on the current tree.  Real cassette and facade over the in-memory fake bucket, settable clock.
-# Bound: <= 2 recordings saved at instants of a 7-point grid around two midnights, every window (start, end | None) over the grid, the lookup
+# Bound: 2 categories ('A', 'test_op'), 2 instant grids (7 points around two midnights; 5 points across a month end), <= 2 recordings saved on a grid, every window (start, end | None) over the grid, the lookup
 # done TWICE on the same cassette object with the clock advanced past a midnight and one more recording saved in between (state kept between
 # lookups), key prefixes '' and 'p/metadata',
 # limit None / 1.  Oracle (C16/C10): exactly the recordings of the category saved within [start, end or now], each once; with a limit,
@@ -30,8 +30,11 @@ class ClockDT(datetime.datetime):
 
 
 mod.datetime = ClockDT
-GRID = [D(2020, 1, 1, 12, 0), D(2020, 1, 1, 23, 59, 59), D(2020, 1, 2, 0, 0, 0), D(2020, 1, 2, 0, 0, 1), D(2020, 1, 2, 18, 0), D(2020, 1, 3, 0, 0, 0), D(2020, 1, 3, 9, 0)]
-LATER = [D(2020, 1, 3, 10, 0), D(2020, 1, 4, 0, 30)]; LATE_SAVE = D(2020, 1, 4, 0, 10)
+# two grids: around two midnights inside a month, and across a month end (day-of-month arithmetic must not be confused with dates)
+GRIDS = [[D(2020, 1, 1, 12, 0), D(2020, 1, 1, 23, 59, 59), D(2020, 1, 2, 0, 0, 0), D(2020, 1, 2, 0, 0, 1), D(2020, 1, 2, 18, 0), D(2020, 1, 3, 0, 0, 0), D(2020, 1, 3, 9, 0)],
+         [D(2020, 1, 30, 8, 0), D(2020, 1, 31, 23, 59, 59), D(2020, 2, 1, 0, 0, 0), D(2020, 2, 1, 7, 0), D(2020, 2, 2, 9, 0)]]
+LATERS = [([D(2020, 1, 3, 10, 0), D(2020, 1, 4, 0, 30)], D(2020, 1, 4, 0, 10)), ([D(2020, 2, 2, 10, 0), D(2020, 2, 3, 0, 30)], D(2020, 2, 3, 0, 10))]
+CATS = ['A', 'test_op']          # the second one starts with characters that also occur in the storage key prefix
 n = 0
 
 
@@ -39,15 +42,15 @@ def fail(sc):
     print(json.dumps(sc, default=str)); sys.exit(1)
 
 
-for prefix in ('', 'p/metadata'):
+for prefix, (GRID, (LATER, LATE_SAVE)), CAT in [(p_, g_, c_) for p_ in ('', 'p/metadata') for g_ in zip(GRIDS, LATERS) for c_ in CATS]:
     for times in itertools.chain([(t,) for t in GRID], itertools.combinations(GRID, 2)):
         fake_boto3.reset()
         c = S3TapeCassette('bucket', key_prefix=prefix, read_only=False)
         saved = []
         for i, t in enumerate(times):
             fake_boto3.CLOCK['now'] = t
-            r = c.create_new_recording('A'); r.set_data('k', i); r.add_metadata({'i': i}); c.save_recording(r); saved.append((r.id, t))
-            o = c.create_new_recording('AB'); o.set_data('k', i); o.add_metadata({'i': i}); c.save_recording(o)
+            r = c.create_new_recording(CAT); r.set_data('k', i); r.add_metadata({'i': i}); c.save_recording(r); saved.append((r.id, t))
+            o = c.create_new_recording(CAT + 'B'); o.set_data('k', i); o.add_metadata({'i': i}); c.save_recording(o)
         for start in GRID:
             for end in GRID + [None]:
                 if end is not None and end < start:
@@ -58,20 +61,20 @@ for prefix in ('', 'p/metadata'):
                         if got_seq and limit is None:
                             # between the two lookups, after the next midnight, one more recording is saved
                             fake_boto3.CLOCK['now'] = LATE_SAVE
-                            r = c.create_new_recording('A'); r.set_data('k', 9); r.add_metadata({'i': 9}); c.save_recording(r); late.append((r.id, LATE_SAVE))
+                            r = c.create_new_recording(CAT); r.set_data('k', 9); r.add_metadata({'i': 9}); c.save_recording(r); late.append((r.id, LATE_SAVE))
                         fake_boto3.CLOCK['now'] = now; n += 1
                         hi = end if end is not None else now
                         want = sorted(i for i, t in saved + late if start <= t <= hi)
                         try:
-                            got = list(c.iter_recording_ids('A', start_date=start, end_date=end, limit=limit))
+                            got = list(c.iter_recording_ids(CAT, start_date=start, end_date=end, limit=limit))
                         except Exception as ex:          # noqa
-                            fail({'prefix': prefix, 'saved': saved, 'start': start, 'end': end, 'limit': limit, 'now': now, 'raised': repr(ex), 'expected': want})
+                            fail({'prefix': prefix, 'category': CAT, 'saved': saved, 'start': start, 'end': end, 'limit': limit, 'now': now, 'raised': repr(ex), 'expected': want})
                         ok = sorted(got) == want if limit is None else (len(got) == min(limit, len(want)) and len(set(got)) == len(got) and set(got) <= set(want))
                         if not ok:
-                            fail({'prefix': prefix, 'saved': saved, 'start': start, 'end': end, 'limit': limit, 'now': now, 'got': got, 'expected': want, 'lookup_number_on_this_cassette': len(got_seq) + 1})
+                            fail({'prefix': prefix, 'category': CAT, 'saved': saved, 'start': start, 'end': end, 'limit': limit, 'now': now, 'got': got, 'expected': want, 'lookup_number_on_this_cassette': len(got_seq) + 1})
                         got_seq.append(got)
                     for i, _ in late:                      # remove the late recordings again (both objects), the next window starts from the saved set
                         for k in [k for k in list(fake_boto3.BUCKETS.get('bucket', {})) if k.endswith(i)]:
                             del fake_boto3.BUCKETS['bucket'][k]
-print(json.dumps({'bound': '<=2 recordings on a 7-instant grid around two midnights x all windows over the grid (end may be None) x limit None/1 x 2 successive lookups per cassette (a recording saved after a midnight in between) x 2 key prefixes', 'cases': n}))
+print(json.dumps({'bound': '2 categories x 2 grids (7 instants around two midnights; 5 instants across a month end) x <=2 recordings x all windows over the grid (end may be None) x limit None/1 x 2 successive lookups per cassette (a recording saved after a midnight in between) x 2 key prefixes', 'cases': n}))
 sys.exit(0)
